@@ -685,7 +685,7 @@ fn sub_src(env: &Rc<MEnv>, sid: usize, s: &Src, down: Obs, d: Disp) {
         i = i.wrapping_add(1);
       }
     }
-    Src::Interval(_) | Src::Timer(_) | Src::IntervalDefault(_) | Src::TimerDefault(_) => env.fail(ModelErr::Unsupported("timed source".into())),
+    Src::Interval(_) | Src::Timer(_) | Src::IntervalDefault(_) | Src::TimerDefault(_) | Src::IntervalUs(_) | Src::TimerUs(_) => env.fail(ModelErr::Unsupported("timed source".into())),
   }
 }
 
